@@ -53,6 +53,7 @@ type TASpec struct {
 	SlowJobs         string   `json:"slow_jobs,omitempty"` // TAOpts.SlowJobs
 	Echo             bool     `json:"echo,omitempty"`      // stages named ECHO*: first output = first input
 	Cluster          bool     `json:"cluster,omitempty"`   // TAOpts.Cluster
+	AgeHeartbeats    bool     `json:"age_heartbeats,omitempty"`
 }
 
 type TreeEntry struct {
@@ -176,6 +177,7 @@ func runSpec(spec *TASpec, scratch string) *TAResult {
 	}
 	opts.SlowJobs = spec.SlowJobs
 	opts.Cluster = spec.Cluster
+	opts.AgeHeartbeats = spec.AgeHeartbeats
 	var run *TARun
 	if spec.Echo {
 		// ECHO* stages (program families): the first output is the first input, so that run-time
